@@ -12,7 +12,9 @@ import (
 	"github.com/consensys/gnark-crypto/ecc"
 	curve "github.com/consensys/gnark-crypto/ecc/bn254"
 	"github.com/consensys/gnark-crypto/ecc/bn254/fr"
+	"github.com/consensys/gnark/backend"
 	"github.com/consensys/gnark/backend/witness"
+	"github.com/consensys/gnark/constraint/solver"
 	"github.com/consensys/gnark/frontend"
 
 	"verifharness/common"
@@ -29,6 +31,7 @@ func init() {
 		"framing":     framingCmd,
 		"c10stress":   c10Stress,
 		"keycheck":    keyCheck,
+		"c06corpus":   c06Corpus,
 	}})
 }
 
@@ -179,6 +182,14 @@ func g2Class(cls string, orig, other, vkel curve.G2Affine) (curve.G2Affine, bool
 
 func fullWitness(assign frontend.Circuit) (witness.Witness, error) {
 	return frontend.NewWitness(assign, field())
+}
+
+func fullWitnessAny(assign any) (witness.Witness, error) {
+	return frontend.NewWitness(assign.(frontend.Circuit), field())
+}
+
+func backendSolverOpts(opts []solver.Option) []backend.ProverOption {
+	return []backend.ProverOption{backend.WithSolverOptions(opts...)}
 }
 
 func pubWitness(assign frontend.Circuit) (witness.Witness, error) {
